@@ -250,6 +250,10 @@ func init() {
 	nativeMethods["prefmsg.Descriptor"] = func(e *Engine, n *Native, a []Value, s ssa.Instruction) Value {
 		return Iface{T: e.ifaceOf(prPkg, "MessageDescriptor"), V: &Native{Kind: "prefdesc", Data: n.Data}}
 	}
+	// FullName: an injective function of the message type (used as a key by callers)
+	nativeMethods["prefdesc.FullName"] = func(e *Engine, n *Native, a []Value, s ssa.Instruction) Value {
+		return mkStr(types.TypeString(n.Data.(*prefMsg).T, nil))
+	}
 	nativeMethods["prefdesc.Fields"] = func(e *Engine, n *Native, a []Value, s ssa.Instruction) Value {
 		return Iface{T: e.ifaceOf(prPkg, "FieldDescriptors"), V: &Native{Kind: "preffields", Data: n.Data}}
 	}
